@@ -22,9 +22,13 @@ NAMES = ['EQ:A', 'EQ:B', 'EQ:C']
 
 def configs(tier):
     n = 2 if tier == 'quick' else 3
-    out = [dict(kind='units', name='universe_alpha_optimisers_N%d' % n, n=n, weight=10, chunk=40, chunk_s=30,
+    out = [dict(kind='units', name='universe_alpha_optimisers_N%d' % n, n=n, weight=10, chunk=40, chunk_s=30, entry_tz='UTC',
                 bound='%d assets: symbolic entry instants (or none), query instant, signal, scale, weights' % n,
                 twins=['member', 'nonmember', 'entry_equals_query'])]
+    for z in ('America/New_York', 'Asia/Tokyo'):
+        out.append(dict(kind='units', name='universe_entries_in_%s' % z.split('/')[1].lower(), n=2, weight=10, chunk=40, chunk_s=30, entry_tz=z,
+                        bound='2 assets whose entry instants are timezone-aware in %s (the query instant is UTC): membership compares instants' % z,
+                        twins=['member', 'nonmember', 'entry_equals_query']))
     out += pcm.configs_for('C19', tier)
     return out
 
@@ -38,7 +42,8 @@ class Units(Harness):
 
     def inputs(self, mk):
         A = NAMES[:self.cfg['n']]
-        return dict(A=A, t=mk.time('t'), entry={a: mk.time('entry_' + a[-1]) for a in A}, listed={a: mk.flag('listed_' + a[-1]) for a in A},
+        return dict(A=A, t=mk.time('t'), entry={a: mk.time('entry_' + a[-1], tz=self.cfg.get('entry_tz', 'UTC')) for a in A},
+                    listed={a: mk.flag('listed_' + a[-1]) for a in A},
                     signal=mk.real('signal'), scale=mk.real('scale'), w={a: mk.real('w_' + a[-1]) for a in A})
 
     def assume(self, L, i):
